@@ -391,8 +391,14 @@ func parent(args []string) int {
 	start := time.Now()
 	seed := seedFromEnv()
 	vd := verifDir()
-	binPlain := filepath.Join(vd, ".build", "vrun")
-	binRace := filepath.Join(vd, ".build", "vrun-race")
+	// (bin/check builds into a directory of its own per invocation, so that two checks running at the same time - a seeded
+	// change being validated next to a plain run - never start each other's children)
+	binDir := filepath.Join(vd, ".build")
+	if d := os.Getenv("VERIF_BIN_DIR"); d != "" {
+		binDir = d
+	}
+	binPlain := filepath.Join(binDir, "vrun")
+	binRace := filepath.Join(binDir, "vrun-race")
 	tmpdir := filepath.Join(vd, "evidence", "tmp", id)
 	os.RemoveAll(tmpdir)
 	os.MkdirAll(tmpdir, 0o755)
